@@ -82,6 +82,15 @@ func (t *Ty) Key(p *Program) string {
 		}
 		return s
 	case "basic":
+		// two spellings, one type
+		switch t.Name {
+		case "byte":
+			return "uint8"
+		case "rune":
+			return "int32"
+		case "any":
+			return "interface{}"
+		}
 		return t.Name
 	case "ptr":
 		return "*" + t.Elem.Key(p)
